@@ -361,7 +361,7 @@ def _dat_eq(da, db):
     return z3.And(*cs)
 
 
-def _state_eq(A, B, N, cap):
+def _state_eq(A, B, N, cap, pos='eq'):
     """clauses: the two abstract states are equal (what an absent slot holds is not observable)"""
     cl = []
     for i in range(cap):
@@ -383,7 +383,9 @@ def _state_eq(A, B, N, cap):
         else:
             v.append(z3.Implies(hd, _dat_eq(da, db)))
         cl.append(('script:vertex%d' % i, z3.And(*v)))
-    g = [A['pos'] == B['pos']]
+    # pos='ge': a malformed command may have consumed ids for its $variables before its fault was noticed (the property
+    # asks for Err and for the EARLIER commands; it does not forbid this)
+    g = [A['pos'] == B['pos'] if pos == 'eq' else z3.UGE(A['pos'], B['pos'])]
     for b in range(2, NSLOT):
         g.append(A['cnt'][b] == B['cnt'][b])
         g.append(A['ctr'][b] == B['ctr'][b])
@@ -687,7 +689,7 @@ def ob_fault(env, N, cap, seed, ncmd, pos_seed):
                 if not vm.solver.check(s2.pc, want_model=False)[0]:
                     continue
                 B = _abstract(w, vm, sb, N, cap)
-                cl = _state_eq(A, B, N, cap)
+                cl = _state_eq(A, B, N, cap, pos='ge')
                 ok, model = vm.solver.oneshot(s2.pc, z3.Not(z3.And(*[f for _, f in cl])))
                 if ok:
                     txt2 = _conc_text(cells, model).decode('utf-8')
@@ -789,7 +791,7 @@ def judge_script(job, lines, crashed, stderr=''):
     d = refmodel.compare(ref, snap)
     if d:
         out.append("after deploying %r the graph differs from the direct calls: %s" % (txt, '; '.join(d)))
-    if snap['next_v'] != ref.pos:
+    if (snap['next_v'] != ref.pos) if bad is None else (snap['next_v'] < ref.pos):
         out.append("allocator position %d, the direct calls leave %d" % (snap['next_v'], ref.pos))
     bi = refmodel.check_inv(snap)
     if bi:
